@@ -188,7 +188,9 @@ class CompilerArgs(T.MutableSequence[str]):
         del self._container[index]
 
     def __len__(self) -> int:
-        return len(self._container) + len(self.pre) + len(self.post)
+        # Pending arguments may still be dropped by the de-duplication.
+        self.flush_pre_post()
+        return len(self._container)
 
     def insert(self, index: int, value: str) -> None:
         self.flush_pre_post()
@@ -324,6 +326,7 @@ class CompilerArgs(T.MutableSequence[str]):
         self.flush_pre_post()
         # Only allow equality checks against other CompilerArgs and lists instances
         if isinstance(other, CompilerArgs):
+            other.flush_pre_post()
             return self.compiler == other.compiler and self._container == other._container
         elif isinstance(other, list):
             return self._container == other
